@@ -357,8 +357,22 @@ func isCompressedExtension(p string) bool {
 	return false
 }
 
+// CreateZip writes the given files into a new zip archive at zipPath.
+//
+// The archive is written under a temporary name and renamed into place once
+// it is complete, so that a process which dies half way through does not
+// leave a truncated archive where the next run expects a readable one.
 func CreateZip(zipPath string, filePaths []string) error {
-	f, err := os.Create(zipPath)
+	tmpPath := zipPath + ".tmp"
+	if err := createZip(tmpPath, zipPath, filePaths); err != nil {
+		os.Remove(tmpPath)
+		return err
+	}
+	return os.Rename(tmpPath, zipPath)
+}
+
+func createZip(tmpPath, zipPath string, filePaths []string) error {
+	f, err := os.Create(tmpPath)
 	if err != nil {
 		return err
 	}
